@@ -68,3 +68,15 @@ Theorem C09_by_id : forall (t0 f0 : Z) (ops : list op) (id : Z) (s : snap),
 Proof. exact by_id_retained. Qed.
 Print Assumptions C09_by_id.
 
+
+(* ------------------------------------------------------------------ collections (Model/GC.v, Model/GCHist.v; C05) *)
+(* After ANY sequential history of commits (append / multi-operation / delete_files), expiries, snapshot deletions,
+   open transactions, planted orphans, arbitrary file ages and COLLECTIONS with any table location, grace period,
+   clock, abandonment timeout and any fault oracle, every retained snapshot is fully present: its manifest list,
+   every manifest in it and every data file they name (C05_history, restated for the retained-snapshot half). *)
+Require DS.Model.GC DS.Model.GCHist DS.Proofs.GCHistProofs.
+Theorem C09_collect_keeps_retained : forall ops : list DS.Model.GCHist.hop,
+  let h := DS.Model.GCHist.run_hist ops in
+  forall l, In l (DS.Model.GCHist.h_lists h) -> DS.Model.GCHist.snapshot_present (DS.Model.GCHist.h_store h) l.
+Proof. intros ops h. exact (proj2 (DS.Proofs.GCHistProofs.history_invariant ops)). Qed.
+Print Assumptions C09_collect_keeps_retained.
